@@ -197,3 +197,6 @@ func c10HistOpt() gen.HistOpt {
 	o.Col = gen.ColumnOpt{Only: []byte{refenc.TTiny, refenc.TShort, refenc.TInt24, refenc.TLong, refenc.TLongLong, refenc.TFloat, refenc.TDouble, refenc.TYear, refenc.TBit, refenc.TString}, NoHeavy: true}
 	return o
 }
+
+// FuzzC10 is the native coverage-guided supplement of the generated part (thorough tier only).
+func FuzzC10(f *testing.F) { fuzzProperty(f, TestC10) }
